@@ -24,6 +24,14 @@ type Opts struct {
 	MaxPkgs, MaxIfaces, MaxMethods int
 	// MethodFilter rejects method names (mock API collisions), nil = none.
 	MethodFilter func(name string) bool
+	// OnAvoid is called whenever a draw is actually steered away from a known-finding trigger.
+	OnAvoid func(key string)
+}
+
+func (o Opts) steered(k string) {
+	if o.OnAvoid != nil {
+		o.OnAvoid(k)
+	}
 }
 
 func (o Opts) avoid(k string) bool { return o.Avoid != nil && o.Avoid[k] }
@@ -257,6 +265,7 @@ func (g *gctx) ident(used map[string]bool) string {
 			cl := g.pick("cls", identClassOrder)
 			name = g.pick("hostile", IdentClasses[cl])
 			if g.o.avoid("ident:"+name) || g.o.avoid("identclass:"+cl) {
+				g.o.steered("ident:" + name)
 				continue
 			}
 		}
@@ -271,6 +280,7 @@ func (g *gctx) ident(used map[string]bool) string {
 			for u := range used {
 				if strings.EqualFold(u[:1], name[:1]) && u[1:] == name[1:] && u != name {
 					shadow = true
+					g.o.steered("ident:case-collision")
 				}
 			}
 		}
@@ -367,6 +377,9 @@ func (g *gctx) iface(name string, file int) Iface {
 				pool = hostileTParamNames
 			}
 			n := g.pick("tpname", pool)
+			if g.o.avoid("tparamname:" + n) {
+				g.o.steered("tparamname:" + n)
+			}
 			if used[n] || n == name || g.o.avoid("tparamname:"+n) {
 				n = fmt.Sprintf("T%d", i)
 			}
@@ -484,6 +497,9 @@ func Gen(t *rapid.T, o Opts) Module {
 	seen := map[string]bool{}
 	for i := 0; i < nk; i++ {
 		k := g.pick("pkgkey", all)
+		if o.avoid("pkg:" + k) {
+			o.steered("pkg:" + k)
+		}
 		if !seen[k] && !o.avoid("pkg:"+k) {
 			seen[k] = true
 			g.pkgKeys = append(g.pkgKeys, k)
@@ -500,6 +516,9 @@ func Gen(t *rapid.T, o Opts) Module {
 	usedDir := map[string]bool{}
 	for i := 0; i < np; i++ {
 		d := pkgDirs[g.intn("pkgdir", 0, len(pkgDirs)-1)]
+		if o.avoid("srcpkg:" + d.name) {
+			o.steered("srcpkg:" + d.name)
+		}
 		if usedDir[d.dir] || o.avoid("srcpkg:"+d.name) {
 			continue
 		}
